@@ -2,86 +2,99 @@
 (* Trace validation for family "fastx" (C11).                               *)
 (* run.cfg = [cls, kind, recs]; recs = the valid records of a round-trip    *)
 (* run (empty for the classes that feed raw bytes).                         *)
-(* events                                                                   *)
-(*   write/display : bytes of the real writers = Wire(kind, recs, wrap, LF) *)
-(*   parse  : outcome sequence of fasta::Records / fastq::Records /         *)
-(*            fastx::EitherRecords (or the documented read() loops) over    *)
-(*            BufReader(cap) over a scripted reader.                        *)
-(*            - ASCII input: items = ItemsFor(parser, bytes) exactly. cap    *)
-(*              and sched are not arguments of the definition, hence any    *)
-(*              dependence on them is a rejection.                          *)
-(*            - lay = 1: the bytes must be Wire(kind, recs, wrap, nl) (cut  *)
-(*              after `cut` bytes); not cut: items = recs (round trip,      *)
-(*              layout independence, sniffer); cut: truncation clauses.     *)
-(*            - non-ASCII input: only "returns, no panic, ends within       *)
-(*              |bytes|+2 items" (the property requires nothing else).      *)
-(*   sniff  : kind()/get_kind/get_kind_seek = SniffKind(bytes)              *)
+(* st = the bytes produced by the last `write` event of the run.            *)
+(*                                                                          *)
+(* Two verdicts per event.                                                  *)
+(* Explains (the property, REJECT):                                         *)
+(*   every call returns, no panic, the iteration ends within |bytes|+2      *)
+(*   items (any input); a stream that is a layout of cfg.recs -- the bytes  *)
+(*   the real writer produced (lay = 1, whatever they look like) or the     *)
+(*   wire format re-wrapped / with CRLF built by the harness (lay = 2, the  *)
+(*   specification re-derives it) -- is read back as exactly cfg.recs, by   *)
+(*   the direct reader and through the sniffer, under every capacity and    *)
+(*   chunking (they are not arguments of the expectation); cut after `cut`  *)
+(*   bytes: the FASTQ records that pass check() are a prefix of cfg.recs.   *)
+(* Exact (machine layer / exact parser definition, DRIFT):                  *)
+(*   the writers' bytes = Wire(kind, recs, wrap, LF); for ASCII input the   *)
+(*   outcome sequence (records AND error kinds, also on garbage) =          *)
+(*   ItemsFor(parser, bytes); sniffer result on arbitrary bytes; cut FASTA  *)
+(*   streams yield no error item and only the last record is damaged.       *)
 EXTENDS FastxIO, TLC, Json, IOUtils
 
 Rec == ndJsonDeserialize(IOEnv.TRACE)
 
-VARIABLES run, idx, ok
-vars == <<run, idx, ok>>
+VARIABLES run, idx, st, ok
+vars == <<run, idx, st, ok>>
 
 ValidCfg(cfg, wrap) ==
     /\ cfg.kind \in {"fasta", "fastq"}
     /\ wrap >= 0
     /\ \A i \in 1..Len(cfg.recs) : ValidRec(cfg.kind, cfg.recs[i], wrap)
 
-VariantKinds(items, b) ==
-    [i \in 1..Len(items) |-> IF items[i].k = "err" THEN "err" ELSE SniffKind(b)]
+VariantKinds(items, kind) ==
+    [i \in 1..Len(items) |-> IF items[i].k = "err" THEN "err" ELSE kind]
 
-LayoutClause(cfg, a, r) ==
-    LET w    == Wire(cfg.kind, cfg.recs, a.wrap, NL(a.crlf))
+\* the uncut stream an event with lay # 0 claims to read
+Stream(cfg, s, a) == IF a.lay = 1 THEN s ELSE Wire(cfg.kind, cfg.recs, a.wrap, NL(a.crlf))
+
+LayoutClause(cfg, s, a, r) ==
+    LET w    == Stream(cfg, s, a)
         orig == ItemsOf(cfg.kind, cfg.recs)
     IN  /\ ValidCfg(cfg, a.wrap)
-        /\ a.crlf \in {0, 1}
+        /\ a.lay \in {1, 2} /\ a.crlf \in {0, 1}
         /\ a.p \in {cfg.kind, "either"}
         /\ IF a.cut < 0
            THEN /\ a.b = w
                 /\ r.items = orig                                   \* lossless, layout independent
+                /\ a.p = "either" => r.vk = VariantKinds(r.items, cfg.kind)     \* the matching parser
            ELSE /\ a.cut <= Len(w)
                 /\ a.b = SubSeq(w, 1, a.cut)
-                /\ IF cfg.kind = "fastq"
-                   THEN IsPrefix(Checked(r.items), orig)            \* checked records: originals, in order
-                   ELSE /\ \A i \in 1..Len(r.items) : r.items[i].k = "rec"
-                        /\ Len(r.items) <= Len(orig)
-                        /\ Len(r.items) > 0 => IsPrefix(SubSeq(r.items, 1, Len(r.items) - 1), orig)
+                /\ cfg.kind = "fastq" => IsPrefix(Checked(r.items), orig)    \* checked records: originals, in order
 
-ParseOk(cfg, a, r) ==
+ParseOk(cfg, s, a, r) ==
     /\ r.st = "ok"
     /\ r.capped = 0
     /\ Len(r.items) <= Len(a.b) + 2
     /\ a.p \in {"fasta", "fastq", "either"}
-    /\ IF IsAscii(a.b)
-       THEN /\ r.items = ItemsFor(a.p, a.b)
-            /\ a.p = "either" => r.vk = VariantKinds(r.items, a.b)
-       ELSE TRUE
-    /\ a.lay = 1 => LayoutClause(cfg, a, r)
+    /\ a.lay # 0 => LayoutClause(cfg, s, a, r)
 
-Explains(cfg, e) ==
+Explains(cfg, s, e) ==
     LET c == e.c  r == e.r  a == e.c.a IN
-    CASE c.op = "write" ->
-           /\ r.st = "ok"
-           /\ ValidCfg(cfg, a.wrap)
-           /\ r.b = Wire(cfg.kind, cfg.recs, a.wrap, NL(0))
-      [] c.op = "display" ->
-           /\ r.st = "ok"
-           /\ ValidCfg(cfg, 0)
-           /\ r.b = Wire(cfg.kind, cfg.recs, 0, NL(0))
-      [] c.op = "parse" -> ParseOk(cfg, a, r)
-      [] c.op = "sniff" ->
-           /\ r.st = "ok"
-           /\ r.kind = SniffKind(a.b)
-           /\ r.pos = 0
+    CASE c.op = "write"   -> r.st = "ok" /\ ValidCfg(cfg, a.wrap)
+      [] c.op = "display" -> r.st = "ok" /\ ValidCfg(cfg, 0)
+      [] c.op = "parse"   -> ParseOk(cfg, s, a, r)
+      [] c.op = "sniff"   -> r.st = "ok"
       [] OTHER -> FALSE
 
-Init == run \in 1..Len(Rec) /\ idx = 0 /\ ok = TRUE
+ParseExact(cfg, a, r) ==
+    /\ IsAscii(a.b) => /\ r.items = ItemsFor(a.p, a.b)
+                       /\ a.p = "either" => r.vk = VariantKinds(r.items, SniffKind(a.b))
+    /\ (a.lay # 0 /\ a.cut >= 0 /\ cfg.kind = "fasta") =>
+            LET orig == ItemsOf("fasta", cfg.recs) IN
+            /\ \A i \in 1..Len(r.items) : r.items[i].k = "rec"
+            /\ Len(r.items) <= Len(orig)
+            /\ Len(r.items) > 0 => IsPrefix(SubSeq(r.items, 1, Len(r.items) - 1), orig)
+
+Exact(cfg, e) ==
+    LET c == e.c  r == e.r  a == e.c.a IN
+    CASE c.op = "write"   -> r.b = Wire(cfg.kind, cfg.recs, a.wrap, NL(0))
+      [] c.op = "display" -> r.b = Wire(cfg.kind, cfg.recs, 0, NL(0))
+      [] c.op = "parse"   -> ParseExact(cfg, a, r)
+      [] c.op = "sniff"   -> r.kind = SniffKind(a.b) /\ r.pos = 0
+      [] OTHER -> TRUE
+
+After(s, e) == IF e.c.op = "write" THEN e.r.b ELSE s
+
+Init == run \in 1..Len(Rec) /\ idx = 0 /\ st = << >> /\ ok = TRUE
 Next ==
     /\ ok /\ idx < Len(Rec[run].ev)
-    /\ LET good == Explains(Rec[run].cfg, Rec[run].ev[idx + 1])
+    /\ LET e    == Rec[run].ev[idx + 1]
+           good == Explains(Rec[run].cfg, st, e)
        IN  /\ ok' = good
-           /\ IF good THEN TRUE ELSE PrintT(<<"REJECT", run, idx + 1>>)
+           /\ st' = IF good THEN After(st, e) ELSE st
+           /\ IF good
+              THEN (IF Exact(Rec[run].cfg, e) THEN TRUE ELSE PrintT(<<"DRIFT", run, idx + 1>>))
+              ELSE PrintT(<<"REJECT", run, idx + 1>>)
     /\ idx' = idx + 1
     /\ UNCHANGED run
 Spec == Init /\ [][Next]_vars
